@@ -23,6 +23,7 @@ const (
 	fInit                // top-level statement calling the file's own public function
 	fUseGlob             // public function reading the file's own global (needs fGlobal)
 	fDeep                // public function calling into the file's own import (set by the graph)
+	fUnder               // underscore-led private names (global _cnt, function _step) used by a public function
 )
 
 type c09Lib struct {
@@ -48,6 +49,13 @@ func c09LibProg(l c09Lib) *Prog {
 			FuncDef{Name: "unused", Rets: []Type{TInt}, Body: []Stmt{Return{Vals: []Expr{Call{Fn: "helper"}}}}},
 		)
 	}
+	if l.feat&fUnder != 0 {
+		p.Stmts = append(p.Stmts,
+			Define{Names: []string{"_cnt"}, Form: DefShort, Vals: []Expr{lit(id * 100)}},
+			FuncDef{Name: "_step", Rets: []Type{TInt}, Body: []Stmt{Return{Vals: []Expr{lit(id)}}}},
+			FuncDef{Name: "Next", Rets: []Type{TInt}, Body: []Stmt{OpAssign{Name: "_cnt", Op: "+", Val: Call{Fn: "_step"}}, Return{Vals: []Expr{Var{"_cnt"}}}}},
+		)
+	}
 	if l.feat&fUseGlob != 0 && l.feat&fGlobal != 0 {
 		p.Stmts = append(p.Stmts, FuncDef{Name: "Cnt", Rets: []Type{TInt}, Body: []Stmt{Return{Vals: []Expr{Binary{Op: "+", L: Var{"count"}, R: lit(1000)}}}}})
 	}
@@ -68,11 +76,12 @@ func c09LibProg(l c09Lib) *Prog {
 }
 
 type c09Case struct {
-	name    string
-	libs    []c09Lib
-	mainImp [][2]string // alias, lib path
-	std     bool
-	nonce   map[int]string // per lib: desired first hex digit of the content hash ("" = none)
+	name     string
+	libs     []c09Lib
+	mainImp  [][2]string // alias, lib path
+	std      bool
+	localStd bool           // a local file strings.tsh (with its own Contains) imported under the alias mystr
+	nonce    map[int]string // per lib: desired first hex digit of the content hash ("" = none)
 }
 
 func c09MainProg(c c09Case) *Prog {
@@ -86,6 +95,9 @@ func c09MainProg(c c09Case) *Prog {
 	}
 	for _, mi := range c.mainImp {
 		p.Imports = append(p.Imports, Import{Alias: mi[0], Path: mi[1]})
+	}
+	if c.localStd {
+		p.Imports = append(p.Imports, Import{Alias: "mystr", Path: "strings.tsh"})
 	}
 	// own functions with the same names as the libraries'
 	p.Stmts = append(p.Stmts,
@@ -102,10 +114,16 @@ func c09MainProg(c c09Case) *Prog {
 		if l.feat&fUseGlob != 0 && l.feat&fGlobal != 0 {
 			args = append(args, Call{Alias: mi[0], Fn: "Cnt"})
 		}
+		if l.feat&fUnder != 0 {
+			args = append(args, Call{Alias: mi[0], Fn: "Next"}, Call{Alias: mi[0], Fn: "Next"})
+		}
 		for _, j := range l.imports {
 			args = append(args, Call{Alias: mi[0], Fn: fmt.Sprintf("Deep%d", j)})
 		}
 		p.Stmts = append(p.Stmts, Print{Args: args})
+	}
+	if c.localStd {
+		p.Stmts = append(p.Stmts, Print{Args: []Expr{StrLit{V: "local"}, Call{Alias: "mystr", Fn: "Contains", Args: []Expr{StrLit{V: "hello"}, StrLit{V: "ell"}}}}})
 	}
 	if c.std {
 		p.Stmts = append(p.Stmts, Raw{Text: `print("std", strings.Contains("hello", "ell"), strings.HasPrefix("hello", "x"))`})
@@ -130,7 +148,7 @@ func withNonce(src string, want string) string {
 
 func c09Cases(thorough bool) []c09Case {
 	var out []c09Case
-	feats := []int{0, fPriv, fPriv | fGlobal, fPriv | fInit, fGlobal | fUseGlob, fPriv | fGlobal | fInit | fUseGlob}
+	feats := []int{0, fPriv, fPriv | fGlobal, fPriv | fInit, fGlobal | fUseGlob, fPriv | fGlobal | fInit | fUseGlob, fUnder, fUnder | fPriv | fGlobal | fInit | fUseGlob}
 	nonces := []string{"", "1", "c"} // first hex digit of the content hash: unconstrained, a digit, a letter
 	if thorough {
 		nonces = []string{"", "0", "1", "2", "3", "4", "5", "6", "7", "8", "9", "a", "b", "c", "d", "e", "f"}
@@ -143,6 +161,8 @@ func c09Cases(thorough bool) []c09Case {
 		out = append(out, c09Case{name: fmt.Sprintf("main->L1 twice (two aliases) feat=%d", f), libs: []c09Lib{{id: 1, feat: f}}, mainImp: [][2]string{{"a1", "l1.tsh"}, {"b1", "l1.tsh"}}})
 		out = append(out, c09Case{name: fmt.Sprintf("main->L1 + std feat=%d", f), libs: []c09Lib{{id: 1, feat: f}}, mainImp: [][2]string{{"a1", "l1.tsh"}}, std: true})
 	}
+	// a LOCAL file named like a standard library script, next to the real std import
+	out = append(out, c09Case{name: "local strings.tsh next to std strings", localStd: true, libs: []c09Lib{{id: 1, feat: fPriv}}, mainImp: [][2]string{{"a1", "l1.tsh"}}, std: true})
 	// two libraries: every edge set {main->L1, main->L2, L1->L2} in which every library is reachable
 	for _, f1 := range feats {
 		for _, f2 := range feats {
@@ -184,7 +204,7 @@ func c09Cases(thorough bool) []c09Case {
 		// three libraries: every DAG over L1 < L2 < L3 (edges Li->Lj, i<j) x every non-empty set of main edges with all libs reachable
 		type triple [3]int
 		var f3 []triple
-		all := fPriv | fGlobal | fInit | fUseGlob
+		all := fPriv | fGlobal | fInit | fUseGlob | fUnder
 		f3 = append(f3, triple{all, all, all})
 		if thorough {
 			f3 = nil
@@ -307,6 +327,11 @@ func C09() int {
 			prefixClasses[cls]++
 			mu.Unlock()
 		}
+		if c.localStd { // its Contains answers something else than the std one
+			lp := &Prog{Stmts: []Stmt{FuncDef{Name: "Contains", Params: []Param{{"s", TStr}, {"sub", TStr}}, Rets: []Type{TStr}, Body: []Stmt{Return{Vals: []Expr{Binary{Op: "+", L: StrLit{V: "mine:"}, R: Var{"sub"}}}}}}}}
+			progs["strings.tsh"] = lp
+			files["strings.tsh"] = PrintProg(*lp)
+		}
 		main := c09MainProg(c)
 		// the model does not interpret the std library: drop the std line from the model program, re-add its known output
 		modelMain := *main
@@ -410,25 +435,29 @@ func C09() int {
 
 // c09KnownKey maps a failing case to the key of a listed root cause when the failure has exactly
 // that cause's shape; otherwise the exact per-case key is kept.
-func c09KnownKey(c c09Case, sym, want string, got drive.RunResult, exact string) string {
-	twice := len(c.mainImp) == 2 && c.mainImp[0][1] == c.mainImp[1][1]
-	diamond := false
-	if len(c.libs) >= 2 {
-		paths := map[string]int{}
-		for _, mi := range c.mainImp {
-			paths[mi[1]]++
-		}
-		for _, l := range c.libs {
-			for _, j := range l.imports {
-				paths[fmt.Sprintf("l%d.tsh", j)]++
-			}
-		}
-		for _, n := range paths {
-			if n > 1 {
-				diamond = true
-			}
+// c09ReachedTwice reports whether some file of the case is imported more than once
+// (under two aliases, or along two import paths).
+func c09ReachedTwice(c c09Case) bool {
+	paths := map[string]int{}
+	for _, mi := range c.mainImp {
+		paths[mi[1]]++
+	}
+	for _, l := range c.libs {
+		for _, j := range l.imports {
+			paths[fmt.Sprintf("l%d.tsh", j)]++
 		}
 	}
+	for _, n := range paths {
+		if n > 1 {
+			return true
+		}
+	}
+	return false
+}
+
+func c09KnownKey(c c09Case, sym, want string, got drive.RunResult, exact string) string {
+	twice := c09ReachedTwice(c)
+	diamond := twice
 	if (twice || diamond) && sym == "stdout-diff" && c09OnlyDuplicatedTopLevel(want, got.Stdout) {
 		return "region=file-reached-twice-runs-its-top-level-code-twice symptom=stdout-diff"
 	}
